@@ -265,6 +265,56 @@ def run_history(seed, k, mon):
             desc['int_targets'] = desc.get('int_targets', 0) + 1
         return t
 
+    given = {}
+
+    def shaped(t):
+        # the caller's arrays: flat, or a 2-d block in C order, in Fortran
+        # order, as a transposed view, or x and y with different layouts
+        n = len(t)
+        cols = [t[:, 0], t[:, 1], t[:, 2]]
+        form = 'flat'
+        a = next((a_ for a_ in (2, 3, 4, 5) if n % a_ == 0 and n // a_ > 1),
+                 None)
+        r = rng.random()
+        if a is not None and r < 0.5:
+            b = n // a
+            cols = [c.reshape(a, b).copy() for c in cols]
+            if r < 0.15:
+                form = '2d-C'
+            elif r < 0.3:
+                form = '2d-F'
+                cols = [np.asfortranarray(c) for c in cols]
+            elif r < 0.4:
+                form = '2d-transposed-view'
+                cols = [np.ascontiguousarray(c.T).T for c in cols]
+            else:
+                form = '2d-mixed-layout'
+                cols[0] = np.asfortranarray(cols[0])
+        desc['target_forms'] = desc.get('target_forms', []) + [form]
+        given['pts'] = np.stack([np.asarray(c, dtype=float).reshape(-1)
+                                 for c in cols], axis=1)
+        given['shape'] = cols[0].shape
+        return dict(x=cols[0], y=cols[1], z=cols[2])
+
+    def target_points(step):
+        # value k (in the logical, C order of the caller's arrays) belongs
+        # to the caller's point k
+        if 'pts' not in given:
+            return None
+        tp_ = interp.pa
+        got = np.stack([tp_.get(c, only_real_particles=True)
+                        for c in 'xyz'], axis=1)
+        if got.shape != given['pts'].shape or \
+                not np.array_equal(got, given['pts']):
+            k_ = 0
+            if got.shape == given['pts'].shape:
+                k_ = int(np.nonzero((got != given['pts']).any(axis=1))[0][0])
+            return ('target-points', 'op %d: target %d of the interpolator '
+                    'is %s, the caller gave %s (%d points, layout %s)' % (
+                        step, k_, got[k_].tolist() if len(got) > k_ else None,
+                        given['pts'][k_].tolist(), len(given['pts']),
+                        desc['target_forms'][-1]))
+
     def target_h(step):
         # target points carry the largest source smoothing length (the h
         # that enters HIJ and WI of the documented sums, and "in range")
@@ -282,7 +332,7 @@ def run_history(seed, k, mon):
         kw['num_points'] = int(rng.integers(20, 120))
     else:
         t0 = targets(int(rng.integers(10, 60)))
-        kw.update(x=t0[:, 0], y=t0[:, 1], z=t0[:, 2])
+        kw.update(shaped(t0))
     try:
         interp = Interpolator(pas, **kw)
     except BaseException as e:
@@ -292,7 +342,7 @@ def run_history(seed, k, mon):
         # the interpolator infers the dimension from the bounding box
         return desc, ('dim', 'Interpolator.dim = %d for %d-d data' % (
             interp.dim, dim))
-    bad = target_h(-1)
+    bad = target_h(-1) or target_points(-1)
     if bad:
         return desc, bad
     Kuse = interp.kernel
@@ -302,10 +352,9 @@ def run_history(seed, k, mon):
         r = rng.random()
         if step and r < 0.15:
             t1 = targets(int(rng.integers(5, 50)))
-            interp.set_interpolation_points(x=t1[:, 0], y=t1[:, 1],
-                                            z=t1[:, 2])
+            interp.set_interpolation_points(**shaped(t1))
             desc['ops'].append('set_interpolation_points')
-            bad = target_h(step)
+            bad = target_h(step) or target_points(step)
             if bad:
                 return desc, bad
         elif step and r < 0.3:
@@ -345,6 +394,11 @@ def run_history(seed, k, mon):
                          for c in 'xyz'], axis=1)
         th = tp.get('h', only_real_particles=True).copy()
         got = res.reshape(-1)
+        if 'shape' in given and got.size == nt and \
+                tuple(res.shape) != tuple(given['shape']):
+            return desc, ('shape', 'op %d: result of shape %s for target '
+                          'arrays of shape %s' % (step, res.shape,
+                                                  given['shape']))
         if got.size != nt:
             return desc, ('shape', 'op %d: %d values for %d points' % (
                 step, got.size, nt))
